@@ -16,6 +16,7 @@ import WzVerif.Lemmas.HttpDigest
 import WzVerif.Lemmas.HttpCsp
 import WzVerif.Lemmas.DateText
 import WzVerif.Lemmas.IfRange
+import WzVerif.Lemmas.HttpSet
 import WzVerif.Lemmas.HttpSetHist
 import WzVerif.Lemmas.HttpHist
 import WzVerif.Lemmas.HttpNF
@@ -88,26 +89,37 @@ theorem parseList_dump (items : List Str) : parseListHeader (dumpHeaderList item
 example : parseListHeader (dumpHeaderList [[], ['a'], ['b', ',', '"', '\\', ' ']]) = [[], ['a'], ['b', ',', '"', '\\', ' ']] := by
   decide
 
-/-- `parse_set_header(HeaderSet(items).to_header())` has the same `_headers` list (hence the same
-case-folded set) for every list of strings. -/
-theorem parseSet_dump (items : List Str) : parseSetHeader (headerSetToHeader items) = items := by
-  unfold parseSetHeader headerSetToHeader
-  have h := parseList_dump_any items
-  unfold dumpHeaderList at h
-  split
-  · next he =>
-    cases items with
-    | nil => rfl
-    | cons v vs =>
-      -- a non-empty list never dumps to the empty string
-      exfalso
-      rw [List.isEmpty_iff] at he
-      rw [he] at h
-      simp [parseListHeader, parseHttpList, httpListGo] at h
-  · exact h
+/-- the members of `HeaderSet(items)`: since repair 1a2e0e6 (former finding F08c) the constructor runs
+the loop of `update()`, so a header given in two spellings is kept once, in its first spelling -/
+abbrev headerSetMembers := Wz.Http.headerSetMembers
+/-- `list(parse_set_header(text))` -/
+abbrev parseSetMembers := Wz.Http.parseSetMembers
 
-example : parseSetHeader (headerSetToHeader [['f', 'o', 'o'], ['B', 'a', 'r', ' ', 'x']]) = [['f', 'o', 'o'], ['B', 'a', 'r', ' ', 'x']] := by
-  decide
+/-- `parse_set_header(HeaderSet(items).to_header())` has the members of `HeaderSet(items)`, in order,
+for **every** list of strings — case-duplicates included. -/
+theorem parseSet_dump (items : List Str) :
+    parseSetMembers (headerSetToHeader (headerSetMembers items)) = headerSetMembers items :=
+  parseSet_dump_any items
+
+example : headerSetMembers [['f', 'o', 'o'], ['B', 'a', 'r', ' ', 'x'], ['F', 'O', 'o']] = [['f', 'o', 'o'], ['B', 'a', 'r', ' ', 'x']]
+    ∧ parseSetMembers (headerSetToHeader [['f', 'o', 'o'], ['B', 'a', 'r', ' ', 'x']]) = [['f', 'o', 'o'], ['B', 'a', 'r', ' ', 'x']] := by
+  decide +kernel
+
+/-- list level (what C16's views use): the text `to_header` writes for a member list parses back to
+exactly that list -/
+theorem parseSet_list_dump (items : List Str) : parseSetHeader (headerSetToHeader items) = items :=
+  parseSet_list_dump_any items
+
+/-- a list without case-duplicates is kept as is by the constructor, and the members of every
+constructed set are distinct ignoring case -/
+theorem headerSetMembers_spec (items : List Str) :
+    ((headerSetMembers items).map pyLower).Nodup ∧
+    ((items.map pyLower).Nodup → headerSetMembers items = items) :=
+  ⟨headerSetMembers_nodup items, headerSetMembers_of_nodup items⟩
+
+/-- regression F08c: `parse_set_header('Cookie, cookie')` keeps the first spelling only -/
+theorem parseSet_keeps_first_spelling :
+    parseSetMembers "Cookie, cookie, X, COOKIE".toList = ["Cookie".toList, "X".toList] := by decide +kernel
 
 /-- normal form for list headers: re-serialising what the parser returned and parsing again is the
 identity on parser images — here for *arbitrary* header text `h`. -/
@@ -115,9 +127,10 @@ theorem parseList_normal_form (h : Str) :
     parseListHeader (dumpHeaderList (parseListHeader h)) = parseListHeader h :=
   parseList_dump_any _
 
+/-- ... and for set headers, on arbitrary (duplicate-bearing) text -/
 theorem parseSet_normal_form (h : Str) :
-    parseSetHeader (headerSetToHeader (parseSetHeader h)) = parseSetHeader h :=
-  parseSet_dump _
+    parseSetMembers (headerSetToHeader (parseSetMembers h)) = parseSetMembers h :=
+  parseSet_normal_form_any h
 
 /-! ### header sets reached through a mutation history -/
 
@@ -126,54 +139,72 @@ theorem parseSet_normal_form (h : Str) :
 abbrev HsEquiv := Wz.Http.HsEquiv
 /-- the object `parse_set_header(text)` builds -/
 abbrev parseSetObj := Wz.Http.parseSetObj
+/-- `HeaderSet(headers)` as repaired: the loop of `update()` from the empty set (C08's model of the loop) -/
+abbrev hsCtor := Wz.Http.hsCtor
 /-- a history run through the mutators **as regenerated from `structures.py`**
 (`Gen/PyFns_HeaderSet.lean`: `update`, `add`, `remove`, `discard`, `__setitem__`; `clear` and
 `__delitem__` from C08's hand model) -/
 abbrev hsRun := Wz.Http.runT
 
-/-- Whatever the history, `parse_set_header(hs.to_header())` has exactly the members of `hs`, in
-order — `to_header` reads `_headers` only. (No hypothesis: also for inconsistent objects.) -/
-theorem headerSet_members_roundtrip (c : HS.St) (ops : List HS.Op) :
+/-- `parse_set_header(hs.to_header())` has exactly the members of `hs`, in order, whenever the members
+of `hs` are distinct ignoring case (`to_header` reads `_headers` only; the constructor drops a second
+spelling) — whatever the state of the index `_set` -/
+theorem headerSet_members_roundtrip (c : HS.St) (ops : List HS.Op)
+    (h : ((hsRun c ops).headers.map Hdr.lower).Nodup) :
     (parseSetObj (HS.toHeader (hsRun c ops))).headers = (hsRun c ops).headers := by
-  unfold parseSetObj Wz.Http.parseSetObj HS.construct
-  exact Wz.Http.parseSet_hsToHeader _
+  unfold parseSetObj Wz.Http.parseSetObj
+  rw [Wz.Http.parseSet_hsToHeader]
+  exact Wz.Http.hsCtor_headers_of_nodup _ h
+
+/-- the repaired constructor establishes C08's invariant for every input list -/
+theorem headerSet_ctor_consistent (l : List Str) : HS.Inv (hsCtor l) := Wz.Http.hsCtor_inv l
 
 /-- **`parse_set_header(hs.to_header()) == hs` for every reachable header set**: start from
-`HeaderSet(l)` with members distinct ignoring case, apply any history of `add`, `update`, `remove`,
-`discard`, `clear`, `del hs[i]`, `hs[i] = v` (an item assignment may re-spell the entry it replaces
-in another case, but not duplicate *another* member — known finding F08b), serialise, parse: same
-members in the same order **and** the same `len` / `in` / `as_set()`. The mutators are the
-definitions regenerated from the source on every run; the invariant is C08's, for every history. -/
-theorem headerSet_history_roundtrip (l : List Str) (hl : (l.map Hdr.lower).Nodup) (ops : List HS.Op)
-    (hok : C08L.hsOkHist (HS.construct l) ops = true) :
-    HsEquiv (parseSetObj (HS.toHeader (hsRun (HS.construct l) ops))) (hsRun (HS.construct l) ops) :=
-  Wz.Http.headerSet_history_roundtrip_any _ (C08L.hs_construct_inv l hl) ops hok
+`HeaderSet(l)` for **any** list `l` (since repair 1a2e0e6 the constructor itself removes
+case-duplicates: the former hypothesis "members distinct ignoring case" is discharged), apply any
+history of `add`, `update`, `remove`, `discard`, `clear`, `del hs[i]`, `hs[i] = v` (an item assignment
+may re-spell the entry it replaces in another case, but not duplicate *another* member — known
+finding F08b), serialise, parse: same members in the same order **and** the same `len` / `in` /
+`as_set()`. The mutators are the definitions regenerated from the source on every run; the invariant
+is C08's, for every history. -/
+theorem headerSet_history_roundtrip (l : List Str) (ops : List HS.Op)
+    (hok : C08L.hsOkHist (hsCtor l) ops = true) :
+    HsEquiv (parseSetObj (HS.toHeader (hsRun (hsCtor l) ops))) (hsRun (hsCtor l) ops) :=
+  Wz.Http.headerSet_history_roundtrip_any _ (Wz.Http.hsCtor_inv l) ops hok
 
-example : (([['G', 'E', 'T'], ['p', 'o', 's', 't']] : List Str).map Hdr.lower).Nodup ∧
-    C08L.hsOkHist (HS.construct [['G', 'E', 'T'], ['p', 'o', 's', 't']])
+example : C08L.hsOkHist (hsCtor [['G', 'E', 'T'], ['p', 'o', 's', 't'], ['g', 'e', 't']])
       [.setitem 0 ['g', 'e', 't'], .add ['P', 'O', 'S', 'T'], .remove ['G', 'e', 't'], .update [['x'], ['X']],
         .setitem (-1) ['y'], .discard ['q'], .delitem 0] = true := by decide
 
 /-- the case the seeded re-ordering of `__setitem__` breaks: re-spelling an entry in another case
 keeps it a member (`HeaderSet(["GET"]); hs[0] = "get"` has length 1 before and after the round trip) -/
 theorem headerSet_setitem_case_variant :
-    hsRun (HS.construct [['G', 'E', 'T']]) [.setitem 0 ['g', 'e', 't']] = ⟨[['g', 'e', 't']], [['g', 'e', 't']]⟩ ∧
-    HsEquiv (parseSetObj (HS.toHeader (hsRun (HS.construct [['G', 'E', 'T']]) [.setitem 0 ['g', 'e', 't']])))
-      (hsRun (HS.construct [['G', 'E', 'T']]) [.setitem 0 ['g', 'e', 't']]) := by
+    hsRun (hsCtor [['G', 'E', 'T']]) [.setitem 0 ['g', 'e', 't']] = ⟨[['g', 'e', 't']], [['g', 'e', 't']]⟩ ∧
+    HsEquiv (parseSetObj (HS.toHeader (hsRun (hsCtor [['G', 'E', 'T']]) [.setitem 0 ['g', 'e', 't']])))
+      (hsRun (hsCtor [['G', 'E', 'T']]) [.setitem 0 ['g', 'e', 't']]) := by
   decide
 
-/-- the initial members must be distinct ignoring case (F08c): `HeaderSet(['a','A']).remove('a')`
-keeps the member `A` that its index no longer knows, and the parsed set has length 1, not 0 -/
+/-- regression F08c (repaired by 1a2e0e6): `HeaderSet(['a','A'])` keeps `a` only, so
+`HeaderSet(['a','A']).remove('a')` is the empty set and round-trips — with the old constructor the
+member `A` stayed behind, unknown to the index, and the parsed set had length 1, not 0 -/
 theorem headerSet_history_needs_distinct_init :
-    ¬ HsEquiv (parseSetObj (HS.toHeader (hsRun (HS.construct [['a'], ['A']]) [.remove ['a']])))
-      (hsRun (HS.construct [['a'], ['A']]) [.remove ['a']]) := by
+    hsCtor [['a'], ['A']] = ⟨[['a']], [['a']]⟩ ∧
+    HsEquiv (parseSetObj (HS.toHeader (hsRun (hsCtor [['a'], ['A']]) [.remove ['a']])))
+      (hsRun (hsCtor [['a'], ['A']]) [.remove ['a']]) := by
+  decide
+
+/-- what the repair removed: an object whose member list has case-duplicates (as the old constructor
+built from `['a','A']`) does not survive `remove` + round trip -/
+theorem headerSet_inconsistent_state_fails :
+    ¬ HsEquiv (parseSetObj (HS.toHeader (hsRun ⟨[['a'], ['A']], [['a']]⟩ [.remove ['a']])))
+      (hsRun ⟨[['a'], ['A']], [['a']]⟩ [.remove ['a']]) := by
   decide
 
 /-- an item assignment must not duplicate another member (F08b): `HeaderSet(['a','b']); hs[0] = 'B';
 hs.remove('b')` -/
 theorem headerSet_history_needs_setitem_ok :
-    ¬ HsEquiv (parseSetObj (HS.toHeader (hsRun (HS.construct [['a'], ['b']]) [.setitem 0 ['B'], .remove ['b']])))
-      (hsRun (HS.construct [['a'], ['b']]) [.setitem 0 ['B'], .remove ['b']]) := by
+    ¬ HsEquiv (parseSetObj (HS.toHeader (hsRun (hsCtor [['a'], ['b']]) [.setitem 0 ['B'], .remove ['b']])))
+      (hsRun (hsCtor [['a'], ['b']]) [.setitem 0 ['B'], .remove ['b']]) := by
   decide
 
 /-! ### key=value dicts -/
